@@ -341,7 +341,9 @@ def check_dump(spec, runner, path, o, reg, ann, k=None):
     case = dict(bintable=spec["tname"], matrix=spec["mname"], symmetric_upper=symm, args=args + ["<cool>"])
     detail = dict(bins=rows, pixels=P, bin_columns="weight=[0.5,1.5,nan,2,0.25,1,4,0.75][i%8], tag=100+7i")
     out = []
-    optsig = "+".join(f for f in FLAGS if f in o) or "none"
+    # kind of command line for a crash / non-zero exit: bin-table join in play?, engine, kind of box, chunked
+    optsig = ("bin-table-join" if o & {"join", "balanced", "annotate"} else "ids-only") + (":fill-lower" if "fill-lower" in o else "") + \
+             (":r+r2" if reg["r2"] else ":r" if reg["r"] else ":whole") + (":-k" if k else "")
     try:
         res = runner.invoke(cli, args + [path])
     except Exception as e:  # CliRunner normally catches; belt and braces
